@@ -150,6 +150,7 @@ def native_outputs(nat, run_c, env):
     for name, (layout, limbs, p) in run_c.inputs.items():
         args.append(native.limbs_bytes([x.cval() for x in limbs], layout.cell))
     r = native.run(cfg, [(fn, args)], profile=profile)[0]
+    native_outputs.last_call = dict(config=cfg, fn=fn, profile=profile, args_hex=[a.hex() for a in args], out_cell=out_layout.cell, out_size=out_layout.size())
     if r is None: return None, "wrapper unknown to the native runner"
     if isinstance(r, tuple): return None, "native " + r[0] + " " + r[1]
     return native.bytes_limbs(r[:out_layout.size()], out_layout.cell), None
@@ -263,6 +264,7 @@ def discharge(rep, run, name, goals, roots, config, fn, bounds_note, timeout_s=6
                             rc2, _, _ = selftest(concrete=env)
                             no, err = native_outputs(nat, rc2, env)
                             detail["native_outputs"] = no if no is not None else err
+                            detail["native_call"] = getattr(native_outputs, "last_call", None)
                             if no is not None and no != detail["llsym_concrete_outputs"]:
                                 ok = False; detail["native_disagrees_with_interpreter"] = True
                         except Exception as e:
